@@ -56,18 +56,24 @@ theorem insertLoop_skip {m : Map} {n : Nat} (hc : m.capacity = 2 ^ n) (k v : Nat
       · exact Or.inl h3
       · exact Or.inr ⟨h3, j + 1, by omega, by rw [hij, show a + 1 + j = a + (j + 1) by omega], hdel⟩
 
-theorem insertLoop_stop {m : Map} {k v : Nat} (hk : 1 < k) {f idx : Nat} {acc : Option Nat} {e : Entry}
-    (he : m.data[idx]? = some e) (hs : Stop k e) :
-    insertLoop m k v (f + 1) idx acc =
-      if e.key = 0 then
-        .ok { m with data := m.data.set (acc.getD idx) ⟨k, v⟩, entries := m.entries + 1 }
-      else .ok { m with data := m.data.set idx ⟨k, v⟩ } := by
+theorem insertLoop_stop_live {m : Map} {k v : Nat} (hk : 1 < k) {f idx : Nat} {acc : Option Nat} {e : Entry}
+    (he : m.data[idx]? = some e) (hs : e.key = k) :
+    insertLoop m k v (f + 1) idx acc = .ok { m with data := m.data.set idx ⟨k, v⟩ } := by
   unfold insertLoop
   simp only [he]
-  rcases hs with h0 | h1
-  · cases acc <;> simp [h0]
-  · have hk0 : ¬ (k = 0) := by omega
-    simp only [h1, hk, hk0, if_false, if_true]
+  have hk0 : ¬ (k = 0) := by omega
+  simp only [hs, hk, if_true]
+
+theorem insertLoop_stop_empty {m : Map} {k v : Nat} {f idx : Nat} {acc : Option Nat} {e eI : Entry}
+    (he : m.data[idx]? = some e) (hs : e.key = 0) (hI : m.data[acc.getD idx]? = some eI) :
+    insertLoop m k v (f + 1) idx acc =
+      if eI.key = 1 then
+        (if m.deleted = 0 then .error (.panic "deleted -= 1 overflows")
+         else .ok { m with data := m.data.set (acc.getD idx) ⟨k, v⟩, entries := m.entries + 1, deleted := m.deleted - 1 })
+      else .ok { m with data := m.data.set (acc.getD idx) ⟨k, v⟩, entries := m.entries + 1 } := by
+  unfold insertLoop
+  simp only [he]
+  cases acc <;> simp [hs] <;> simp at hI <;> simp [hI]
 
 theorem removeLoop_skip {m : Map} {n : Nat} (hc : m.capacity = 2 ^ n) (k : Nat) :
     ∀ (D f a : Nat), (∀ j, j < D → ∃ e : Entry, m.data[(a + j) % m.capacity]? = some e ∧ Skip k e) →
@@ -97,7 +103,7 @@ theorem removeLoop_stop {m : Map} {k : Nat} (hk : 1 < k) {f idx : Nat} {e : Entr
     removeLoop m k (f + 1) idx =
       if e.key = 0 then .ok (none, m)
       else if m.entries = 0 then .error (.panic "entries -= 1 overflows")
-      else .ok (some e.val, { m with data := m.data.set idx ⟨1, 0⟩, entries := m.entries - 1 }) := by
+      else .ok (some e.val, { m with data := m.data.set idx ⟨1, 0⟩, entries := m.entries - 1, deleted := m.deleted + 1 }) := by
   unfold removeLoop
   simp only [he]
   rcases hs with h0 | h1
